@@ -325,6 +325,7 @@ type Violation struct {
 	Msg    string
 	Query  string   // satisfiable formula (under the path condition) witnessing it
 	Detail []string // free text lines
+	Tags   []string // classification hints for known-finding predicates
 }
 
 // OracleCtx is what an oracle sees.
@@ -589,6 +590,7 @@ func (w *Worker) handleViolation(cs *Case, x *OracleCtx, v *Violation, rep *Repo
 		f.ReplayMsg = rv.Msg
 		f.ReplayDetail = rv.Detail
 		f.ReplaySub = rv.Sub
+		f.Tags = rv.Tags // tags count only when established on the native build
 	}
 	if !confirmed {
 		rep.unconfirmed(f)
@@ -659,6 +661,7 @@ type Finding struct {
 	ReplayMsg    string            `json:"replay_message,omitempty"`
 	ReplayDetail []string          `json:"replay_detail,omitempty"`
 	Known        string            `json:"known_finding,omitempty"`
+	Tags         []string          `json:"tags,omitempty"`
 }
 
 type KnownFinding struct {
